@@ -9,16 +9,19 @@
 (***************************************************************************)
 EXTENDS BlockStore, Json
 
-CONSTANTS N, D, Gaps
+CONSTANTS N, D, Gaps, Forks
 VARIABLES tree, order
 gvars == <<tree, order>>
 
+(* an operation is a delivery [k |-> "D", b] or a fork switch [k |-> "F", a, b]: the sync
+   processor switches to the fork a -> ... -> b, a being on the local chain *)
 RECURSIVE Play(_, _, _, _, _)
 Play(t, s, ord, i, acc) ==
   IF i > Len(ord) THEN acc
-  ELSE LET b    == ord[i]
-           pre  == [s EXCEPT !.pending = @ \cup (TxsOf(t, b) \ s.executed)]
-           s0   == Begin(t, pre, b)
+  ELSE LET o    == ord[i]
+           b    == o.b
+           pre  == IF o.k = "D" THEN [s EXCEPT !.pending = @ \cup (TxsOf(t, b) \ s.executed)] ELSE s
+           s0   == IF o.k = "D" THEN Begin(t, pre, b) ELSE BeginFork(t, pre, PathDown(t, o.a, b))
            post == RunAll(t, s0)
            rem  == Cardinality(Canon(t, pre) \ Canon(t, post))
            nh   == Len(HeadsOfCall(t, s0)) - 1
@@ -30,8 +33,14 @@ Play(t, s, ord, i, acc) ==
 Features(t, ord) == Play(t, InitState(t), ord, 1, [maxRem |-> 0, res |-> <<>>, multiHead |-> FALSE])
 
 Init == tree \in TreesUpTo(N, Gaps) /\ order = <<>>
+(* fork switches only as the last operation (the model state is not carried in the generator, so
+   "a on the local chain" is decided when the scenario is played; an unsuitable a is a no-op) *)
 Next == /\ Len(order) < D
-        /\ \E b \in 1..N : order' = Append(order, b)
+        /\ \/ \E b \in 1..N : order' = Append(order, [k |-> "D", a |-> 0, b |-> b])
+           \/ /\ Forks /\ Len(order) = D - 1
+              /\ \E x \in 1..N, a \in 0..N :
+                    /\ a # x /\ a \in Ancestors(tree, x)
+                    /\ order' = Append(order, [k |-> "F", a |-> a, b |-> x])
         /\ UNCHANGED tree
 GenSpec == Init /\ [][Next]_gvars
 
